@@ -1033,6 +1033,115 @@ func DetachVsEndBody(kind string, abrupt bool) func(x *vrt.Exec) {
 	}
 }
 
+// JoinVsPublishBody: a player's attaching request races with publication. The player must receive
+// a gap-free, repeat-free run of the published sequence that reaches its end (it attached before
+// the end and never left), nothing may precede the answer to its PLAY on the same connection, and
+// a player that was attached all along must not notice anything.
+func JoinVsPublishBody(kind string, n int) func(x *vrt.Exec) {
+	return func(x *vrt.Exec) {
+		vrt.Quiet(true)
+		w := newWorld(x)
+		if w == nil {
+			return
+		}
+		witness := "tcp"
+		if kind == "tcp" {
+			witness = "ws"
+		}
+		w.apply("attach:"+witness, false)
+		w.apply("pub", false)
+		p := w.players[kind]
+		p.attachUpTo(x, false)
+		if p.handshake != "200 200 200" {
+			x.Failf("adapters handshake-refused "+strings.TrimRight(kind, "12"), "%s DESCRIBE/SETUP/SETUP answered [%s]", kind, p.handshake)
+			return
+		}
+		if p.ref != nil || kind == "hflv" || kind == "wflv" {
+			return // FLV players are compared with a reference consumer, which cannot attach "at the same instant" here
+		}
+		// pre-build the packets so that the racing publisher only writes
+		var frames [][]byte
+		for i := 0; i < n; i++ {
+			k := len(w.published)
+			ch := chans[k%len(chans)]
+			var data []byte
+			if ch%2 == 0 {
+				data = hx.Pkt(ch, 96, true, uint16(k), uint32(3000*k), rtppack.H264Single(hx.NAL(3, 1, 6+k, byte(k)))).Data
+			} else {
+				data = append([]byte{0x80, 200, 0, 6}, bytes.Repeat([]byte{byte(0x10 + k)}, 24)...)
+			}
+			w.published = append(w.published, rec{int(ch), data})
+			frames = append(frames, frame(ch, data))
+		}
+		first := len(w.published) - n
+		dg0 := len(vnet.Datagrams())
+		vrt.Quiet(false)
+		pubDone := false
+		vrt.GoNamed("publisher-client", func() {
+			for _, f := range frames {
+				w.pusher.SendRaw(f)
+			}
+			pubDone = true
+		})
+		p.sendPlay()
+		vrt.Point("join-publisher", &pubDone, func() bool { return pubDone })
+		vrt.WhenIdle()
+		vrt.Quiet(true)
+		w.trail = append(w.trail, fmt.Sprintf("PLAY:%s || pub x%d", kind, n))
+		// one more packet after everything settled: the newcomer must be attached by now
+		p.attached, p.from, p.dgFrom = true, first, dg0
+		w.apply("pub", false)
+		kk := strings.TrimRight(kind, "12")
+		// (1) order on the player's own connection: the PLAY answer first
+		var items []rtspwire.Item
+		switch kind {
+		case "tcp", "udp", "mc1":
+			p.tcp.Drain()
+			items = p.tcp.Items
+		case "ws":
+			p.ws.Drain()
+			items = p.ws.Items
+		}
+		seenPlayAnswer := kind == "wsp"
+		nResp := 0
+		for _, it := range items {
+			if !it.Frame {
+				nResp++
+				if nResp == 4 { // DESCRIBE, SETUP, SETUP, PLAY
+					seenPlayAnswer = true
+					if it.Status != 200 {
+						x.Failf("adapters play-refused-during-publication "+kk, "PLAY answered %d", it.Status)
+						return
+					}
+				}
+			} else if !seenPlayAnswer {
+				x.Failf("adapters media-before-play-answer "+kk, "history [%s]: an interleaved frame precedes the answer to PLAY on the %s connection", w.history(), kind)
+				break
+			}
+		}
+		// (2) the newcomer's record: a run of the published sequence ending at its end
+		p.collect(x, vnet.Datagrams())
+		got := p.got
+		tail := w.published[len(w.published)-len(got):]
+		ok := len(got) >= 1 && len(got) <= n+1
+		for i := 0; ok && i < len(got); i++ {
+			ok = got[i].ch == tail[i].ch && bytes.Equal(got[i].data, tail[i].data)
+		}
+		if !ok {
+			x.Failf("adapters "+kk+"-join-record-not-a-suffix", "history [%s]: the %s player joining during publication received %s; the published sequence ends with %s", w.history(), kind, show(got, w.published), show(w.published[first:], w.published))
+		}
+		x.Observe("%s got=%d", kind, len(got))
+		// (3) the witness saw everything
+		p.attached = false // judged above
+		p.done = false
+		x.Observe("%s", strings.Join(w.checkReception(), " "))
+		w.pusher.Do("TEARDOWN", pushURL, nil, "")
+		vrt.WhenIdle()
+		w.closeAllClients()
+		stuck(x, "adapters")
+	}
+}
+
 // FanoutScenarios are C01's.
 func FanoutScenarios(thorough bool) []runner.Scenario {
 	steps, e, sh, mcP := 6, 3, 8, 2
@@ -1043,6 +1152,11 @@ func FanoutScenarios(thorough bool) []runner.Scenario {
 		{Name: fmt.Sprintf("adapters-teardown-steps%d", steps), Body: FanoutBody(steps, false), P: 0, E: e, Shards: sh, Horizon: 400000, NoFine: true},
 		{Name: fmt.Sprintf("adapters-disconnect-steps%d", steps), Body: FanoutBody(steps, true), P: 0, E: e, Shards: sh, Horizon: 400000, NoFine: true},
 		{Name: "adapters-multicast-last-member-leaves-while-another-starts", Body: MulticastRestartBody(), P: mcP, Shards: sh, Horizon: 400000, NoFine: true},
+		{Name: "adapters-join-during-publication-tcp", Body: JoinVsPublishBody("tcp", 3), P: mcP, Shards: sh, Horizon: 400000, NoFine: true},
+		{Name: "adapters-join-during-publication-udp", Body: JoinVsPublishBody("udp", 3), P: mcP, Shards: sh, Horizon: 400000, NoFine: true},
+		{Name: "adapters-join-during-publication-mc", Body: JoinVsPublishBody("mc1", 3), P: mcP, Shards: sh, Horizon: 400000, NoFine: true},
+		{Name: "adapters-join-during-publication-ws", Body: JoinVsPublishBody("ws", 3), P: mcP, Shards: sh, Horizon: 400000, NoFine: true},
+		{Name: "adapters-join-during-publication-wsp", Body: JoinVsPublishBody("wsp", 3), P: mcP, Shards: sh, Horizon: 400000, NoFine: true},
 	}
 }
 
